@@ -154,6 +154,7 @@ class C18str(vlib.HistoryProp):
             "CL 0 3", "MI 0 2", "SC 0 1 74", "CR 0"]
     MORE = ["CP 0 0", "AS 0 1", "CL 1 0", "MI 1 100", "LO 1", "UP 0", "AC 1 0", "AC 0 0", "CC 1 0", "PL 1 a",
             "CP 2 0", "AL 2 Q"]
+    CORE6 = ["SL 0 Hello", "CP 1 0", "CP 0 1", "AL 0 XY", "AS 1 0", "CL 0 3", "SC 1 1 74", "CR 0", "MI 0 2", "AH 1 33"]
     BAD = ["RS 0 8", "RS 0 2", "RS 1 0", "RV 0 20", "RV 1 1", "AN 0 x", "AN 1 _", "AS 0 0", "AL 0 _"]
 
     def enum(self, alpha, n, out, origin, nv=3):
@@ -222,7 +223,7 @@ class C18str(vlib.HistoryProp):
         else:
             self.enum(full, 4, ex, "exhaustive-len4")
             self.enum(self.CORE + self.MORE[:4], 5, ex, "exhaustive-16-len5")
-            self.enum(self.CORE[:10], 6, ex, "exhaustive-core-len6")
+            self.enum(self.CORE6, 6, ex, "exhaustive-core10-len6")
             walks = [(4, 100, 5000), (4, 1000, 200), (3, 40, 5000), (4, 10000, 10)]
         cases += ex
         k = 0
@@ -307,7 +308,7 @@ def check(res, tier, seed):
     res.cov["rule"] += ("corpus first (regressions of 091996b and eb9c208); every history of length 3 (quick) / 4 (thorough) over a 24-letter alphabet "
                         "on 3 variables (literal/empty assignment, copies in both directions, self-assignment, copy construction, v = w.c_str(), "
                         "append of a literal / of nothing / of a char / of the other string, CapLength, -=, operator[] write, tolower/toupper, clear), "
-                        "length 4 (quick) / 5 and 6 (thorough) over its 12/16/10-letter cores, restricted to the alphabet of the theorem (Spec.pre); "
+                        "length 4 (quick) over its 12-letter core, length 5 (thorough) over 16 letters and length 6 (thorough) over a 10-letter core, restricted to the alphabet of the theorem (Spec.pre); "
                         "seeded random walks over 3-4 variables and 9 literals aimed at the boundaries (index = len, cap = len +- 1, -= len, shared/unshared, "
                         "after a reallocation); the refuted witnesses are re-run against the implementation; "
                         "non-trivial = two variables showed the same non-empty text (sharing) and the history has >= 3 distinct observations")
